@@ -8,6 +8,7 @@ import PymaVerif.Model.Generated.Algorithms
 import PymaVerif.Model.Nof
 import PymaVerif.Model.Machine
 import PymaVerif.Model.Cauchy
+import PymaVerif.Model.Projector
 
 open Lean Pyma Pyma.Dsl Pyma.BlockDiag
 
@@ -334,6 +335,48 @@ def runCauchy (j : Json) : Except String String := do
 
 end Cau
 
+
+/-! ## `proj`: the complement projector after a word of `T` / `H` / `C` operations, applied from the left or the right -/
+namespace ProjCmd
+open Pyma.Projector
+
+def parseRect (j : Json) : Except String (Array (Array GRat)) := do
+  match j with
+  | .arr rows => rows.mapM fun r => do
+      match r with
+      | .arr xs => xs.mapM fun x => do parseGRat (← x.getStr?)
+      | _ => throw "row: array expected"
+  | _ => throw "matrix: array expected"
+
+def entry (A : Array (Array GRat)) (a c : Nat) : GRat := (A.getD a #[]).getD c 0
+
+def runProj (j : Json) : Except String String := do
+  let n ← j.getObjValAs? Nat "n"
+  let m ← j.getObjValAs? Nat "m"
+  let R ← parseRect (← j.getObjVal? "R")
+  let L ← parseRect (← j.getObjVal? "L")
+  let word ← (← getArr j "word").toList.mapM fun w => w.getStr?
+  let side ← j.getObjValAs? String "side"
+  let X ← parseRect (← j.getObjVal? "X")
+  let P0 : Proj GRat n m := ⟨entry R, entry L⟩
+  let P ← word.foldlM (fun (P : Proj GRat n m) w => match w with
+    | "T" => pure (transpose P) | "H" => pure (adjoint P) | "C" => pure (conjugate P)
+    | w => throw s!"unknown operation {w}") P0
+  if side == "left" then
+    -- P @ X with X of shape n × k: `_apply` on every column
+    let k := (X.getD 0 #[]).size
+    let cols := (List.range k).map fun c => apply P (fun a => entry X a c)
+    let rows := (List.range n).map fun a => String.intercalate ";" (cols.map fun col => GRat.toString (col a))
+    pure (String.intercalate "|" rows)
+  else if side == "right" then
+    -- X @ P with X of shape k × n: `_apply_left` on the conjugated rows (what `rmatmat` does), conjugated back
+    let rows := X.toList.map fun row =>
+      let w := applyLeft P (fun a => Scalar.conj (row.getD a 0))
+      String.intercalate ";" ((List.range n).map fun a => GRat.toString (Scalar.conj (w a)))
+    pure (String.intercalate "|" rows)
+  else throw s!"unknown side {side}"
+end ProjCmd
+
 partial def loop (h : IO.FS.Stream) : IO Unit := do
   let line ← h.getLine
   if line.isEmpty then return ()
@@ -356,6 +399,10 @@ partial def loop (h : IO.FS.Stream) : IO Unit := do
       | .error e => IO.println s!"bad-request {e}"
     | .ok "nof" =>
       match runNof j with
+      | .ok l => IO.println l
+      | .error e => IO.println s!"bad-request {e}"
+    | .ok "proj" =>
+      match ProjCmd.runProj j with
       | .ok l => IO.println l
       | .error e => IO.println s!"bad-request {e}"
     | _ => IO.println "bad-cmd"
